@@ -27,15 +27,20 @@ const (
 	KSliceS // []string (appended last: the enumeration of the older kinds keeps its order)
 	KSliceB // []bool
 	numKinds
+	// KEmbed lies outside the kinds primarySpecs enumerates (keys.go adds it to the key-name groups): an
+	// EMBEDDED struct{ X int } whose X carries the field's whole tag (key, optionality, value options);
+	// the library flattens it: X is looked up in the same map as the siblings. EmbOpt: the embedded
+	// struct itself is tagged `,optional`.
+	KEmbed = numKinds
 )
 
-var kindNames = [...]string{"int", "int8", "uint", "float64", "string", "bool", "*int", "*string", "struct{X int}", "[]int", "map[string]int", "[]string", "[]bool"}
+var kindNames = [...]string{"int", "int8", "uint", "float64", "string", "bool", "*int", "*string", "struct{X int}", "[]int", "map[string]int", "[]string", "[]bool", "embedded struct{X int}"}
 
 func (k Kind) String() string { return kindNames[k] }
-func (k Kind) numeric() bool  { return k == KInt || k == KInt8 || k == KUint || k == KFloat || k == KPInt }
-func (k Kind) integer() bool  { return k == KInt || k == KInt8 || k == KUint || k == KPInt }
+func (k Kind) numeric() bool  { return k == KInt || k == KInt8 || k == KUint || k == KFloat || k == KPInt || k == KEmbed }
+func (k Kind) integer() bool  { return k == KInt || k == KInt8 || k == KUint || k == KPInt || k == KEmbed }
 func (k Kind) stringy() bool  { return k == KString || k == KPString }
-func (k Kind) scalar() bool   { return k <= KPString }
+func (k Kind) scalar() bool   { return k <= KPString || k == KEmbed }
 func (k Kind) slice() bool    { return k == KSlice || k == KSliceS || k == KSliceB }
 func (k Kind) refKind() bool  { return k.pointer() || k == KNested || k == KMap || k.slice() }
 func (k Kind) pointer() bool  { return k == KPInt || k == KPString }
@@ -60,6 +65,8 @@ type Field struct {
 	Str      bool   `json:"str,omitempty"`      // `string`
 	InnerOpt bool   `json:"innerOpt,omitempty"` // KNested only: X is `optional`
 	Src      string `json:"src,omitempty"`      // httpx.Parse entry only: form|path|header|json
+	EmbOpt   bool   `json:"embOpt,omitempty"`   // KEmbed only: the embedded struct is `,optional`
+	Key      string `json:"key,omitempty"`      // key name in the tag; "" = the one-letter name of the position (keys.go: dotted and other multi-character names)
 }
 
 type rangeSpec struct {
@@ -93,6 +100,18 @@ var (
 )
 
 func keyOf(i int) string   { return string(rune('a' + i)) }
+
+// keyName: the key text field i carries in its tag.
+func keyName(fs []Field, i int) string {
+	if fs[i].Key != "" {
+		return fs[i].Key
+	}
+	return keyOf(i)
+}
+
+// dotted: the key text contains the path delimiter ('.'): a path into nested documents for the
+// json / key / conf / header unmarshalers, one opaque parameter name for form / path.
+func (f Field) dotted() bool { return strings.Contains(f.Key, ".") }
 func goName(i int) string  { return string(rune('A' + i)) }
 func (f Field) inner() Field { // the spec of X of a nested field, as a free-standing int field
 	o := OptNone
@@ -127,14 +146,14 @@ func valueOptions(f Field) string {
 func tagValue(fs []Field, i int) string {
 	f := fs[i]
 	var b strings.Builder
-	b.WriteString(keyOf(i))
+	b.WriteString(keyName(fs, i))
 	switch f.Opt {
 	case OptPlain:
 		b.WriteString(",optional")
 	case OptDep:
-		b.WriteString(",optional=" + keyOf(f.Dep))
+		b.WriteString(",optional=" + keyName(fs, f.Dep))
 	case OptNotDep:
-		b.WriteString(",optional=!" + keyOf(f.Dep))
+		b.WriteString(",optional=!" + keyName(fs, f.Dep))
 	}
 	if f.Kind != KNested {
 		b.WriteString(valueOptions(f))
@@ -203,7 +222,7 @@ func goType(f Field, keys []string) reflect.Type {
 	case KSliceB:
 		return reflect.SliceOf(tBool)
 	}
-	panic("bad kind")
+	panic("bad kind (KEmbed is built by buildSplitType)")
 }
 
 // tagKeysFor: which tag keys field i carries. All direct entries share one type that carries the
@@ -247,7 +266,14 @@ func buildSplitType(fsEff, fsAlt []Field, effEntry string, sibling bool) reflect
 	var kb strings.Builder
 	sfs := make([]reflect.StructField, len(fsEff))
 	for i, f := range fsEff {
-		if fsAlt == nil {
+		if f.Kind == KEmbed {
+			keys := tagKeysFor(f)
+			in := reflect.StructOf([]reflect.StructField{{Name: "X", Type: tInt, Tag: multiTag(keys, tagValue(fsEff, i))}})
+			sfs[i] = reflect.StructField{Name: goName(i), Type: in, Anonymous: true}
+			if f.EmbOpt {
+				sfs[i].Tag = multiTag(keys, ",optional")
+			}
+		} else if fsAlt == nil {
 			keys := tagKeysFor(f)
 			sfs[i] = reflect.StructField{Name: goName(i), Type: goType(f, keys), Tag: multiTag(keys, tagValue(fsEff, i))}
 		} else {
@@ -306,7 +332,13 @@ func describeType(fs []Field) string {
 		if len(keys) > 1 {
 			k = "<key>"
 		}
-		if f.Kind == KNested {
+		if f.Kind == KEmbed {
+			fmt.Fprintf(&b, "struct{ X int `%s:\"%s\"` } /* embedded */", k, tagValue(fs, i))
+			if f.EmbOpt {
+				fmt.Fprintf(&b, " `%s:\",optional\"`", k)
+			}
+			b.WriteString("; ")
+		} else if f.Kind == KNested {
 			fmt.Fprintf(&b, "%s struct{ X int `%s:\"%s\"` } `%s:\"%s\"`; ", goName(i), k, innerTagValue(f), k, tagValue(fs, i))
 		} else {
 			fmt.Fprintf(&b, "%s %s `%s:\"%s\"`; ", goName(i), f.Kind, k, tagValue(fs, i))
